@@ -897,9 +897,33 @@ fn strat_u2f(bits: usize) -> BoxedStrategy<Case> {
     if bits == 0 {
         return Just(Case::new().l(vec![]).l(vec![]).n(0)).boxed();
     }
-    (u2f_value(bits), 0u8..9, any::<u64>(), 0..bits).prop_map(move |((v, g), dk, r, k)| {
+    (u2f_value(bits), 0u8..13, any::<u64>(), 0..bits).prop_map(move |((v, g), dk, r, k)| {
         let vb = big(&v);
         let len = vb.bits() as usize;
+        if dk >= 9 {
+            // same leading 64 (or 53, or 24) bits, a different tail below them: the two values
+            // may only differ in how the discarded bits are spread over the lower limbs (a single
+            // lowest bit, a bit in the limb the window ends in, a bit in a limb entirely below it,
+            // all ones, a generated tail); the pair is ordered afterwards
+            let keep = [64usize, 64, 53, 24][(dk - 9) as usize];
+            if len > keep {
+                let t = len - keep;
+                let head = (&vb >> t) << t;
+                let tail = match r % 8 {
+                    0 => BigUint::zero(),
+                    1 => BigUint::one(),
+                    2 => pow2(t - 1),
+                    3 => pow2(t - 1) - 1u32,
+                    4 => pow2(t) - 1u32,
+                    5 => pow2((t - 1) / 64 * 64),          // lowest bit of the limb the window ends in
+                    6 => pow2(((t - 1) / 64 * 64).saturating_sub(64)), // a bit one limb further down
+                    _ => BigUint::from(r) % pow2(t),
+                };
+                let w = head + tail;
+                let (lo, hi) = if w < vb { (w, vb) } else { (vb, w) };
+                return Case::new().l(limbs_of(&lo, n)).l(limbs_of(&hi, n)).n(g);
+            }
+        }
         let delta = match dk {
             0 => BigUint::one(),
             1 => BigUint::from(2u32),
@@ -1061,7 +1085,7 @@ fn class_examples() -> Value {
 fn main() {
     let spec = PropSpec {
         id: "C18",
-        rule_text: "u2f: ordered pairs (v, v+delta) per width from alphabet values, 2^k+-{0,1,2}, heads of 24/25/53/54/64/65 significant bits followed by a guard/tail field (zero, exact tie, tie+-1, all ones, a single low bit, tie or zero guard with a non-zero tail below the top 64 bits) and values straddling MAX_FINITE, MAX_FINITE+ulp/2 and 2^(emax+1) of f32 and f64; exhaustive for BITS in {0,1,7,16}. The result's bit pattern is decoded to exact integers; it must be one of the two representable neighbours (exact when representable), +inf only from MAX_FINITE+ulp/2 and always from 2^(emax+1), by-value and by-reference forms, monotone on the pair. f2u_f64 / f2u_f32: bit patterns from the classes NaN (6 payload kinds, both signs), +-inf, +-0, subnormals, (0,0.5) incl. 0.5-ulp, k+0.5 and its pattern neighbours, integers of the top integer binade [2^(p-1),2^p) odd and even, values >= 2^p, 2^BITS+-{0..3 ulp}, 2^BITS-1, 2^BITS-0.5, 2^BITS-1.5, in-range values with arbitrary fractions, small integers +-ulps, uniform patterns, a quarter of them negated; plus the exhaustive f32 grid sign x exponent x top 11 fraction bits x low 12 bits {000,fff} at BITS in {1,7,24,64,128} (thorough: top 15 fraction bits x low 8 bits {00,ff} at BITS 64 and 128). Oracle: exact floor(f+1/2) from the decoded mantissa/exponent; Ok iff < 2^BITS else ValueTooLarge(BITS,_); f<0 ValueNegative(BITS,_); NaN NotANumber(BITS); -0.0 Ok(0); from panics iff error; saturating_from MAX/0/0; wrapping_from compared in range only; error payloads not compared. Non-trivial: f2u: fractional part exactly .5, integer in [2^(p-1),2^p), within one ulp of 2^BITS (or of the format's top when 2^BITS is beyond it), NaN/inf/zero/subnormal; u2f: bit_len > 24 (f32 inexact possible), with class counters for > 53, > 64 and non-zero tails below the top 64 bits.",
+        rule_text: "u2f: ordered pairs (v, v+delta), and pairs sharing their leading 64/53/24 bits with differently spread tails below, per width from alphabet values, 2^k+-{0,1,2}, heads of 24/25/53/54/64/65 significant bits followed by a guard/tail field (zero, exact tie, tie+-1, all ones, a single low bit, tie or zero guard with a non-zero tail below the top 64 bits) and values straddling MAX_FINITE, MAX_FINITE+ulp/2 and 2^(emax+1) of f32 and f64; exhaustive for BITS in {0,1,7,16}. The result's bit pattern is decoded to exact integers; it must be one of the two representable neighbours (exact when representable), +inf only from MAX_FINITE+ulp/2 and always from 2^(emax+1), by-value and by-reference forms, monotone on the pair. f2u_f64 / f2u_f32: bit patterns from the classes NaN (6 payload kinds, both signs), +-inf, +-0, subnormals, (0,0.5) incl. 0.5-ulp, k+0.5 and its pattern neighbours, integers of the top integer binade [2^(p-1),2^p) odd and even, values >= 2^p, 2^BITS+-{0..3 ulp}, 2^BITS-1, 2^BITS-0.5, 2^BITS-1.5, in-range values with arbitrary fractions, small integers +-ulps, uniform patterns, a quarter of them negated; plus the exhaustive f32 grid sign x exponent x top 11 fraction bits x low 12 bits {000,fff} at BITS in {1,7,24,64,128} (thorough: top 15 fraction bits x low 8 bits {00,ff} at BITS 64 and 128). Oracle: exact floor(f+1/2) from the decoded mantissa/exponent; Ok iff < 2^BITS else ValueTooLarge(BITS,_); f<0 ValueNegative(BITS,_); NaN NotANumber(BITS); -0.0 Ok(0); from panics iff error; saturating_from MAX/0/0; wrapping_from compared in range only; error payloads not compared. Non-trivial: f2u: fractional part exactly .5, integer in [2^(p-1),2^p), within one ulp of 2^BITS (or of the format's top when 2^BITS is beyond it), NaN/inf/zero/subnormal; u2f: bit_len > 24 (f32 inexact possible), with class counters for > 53, > 64 and non-zero tails below the top 64 bits.",
         assumptions: vec![
             "num-bigint shifts/comparisons are correct (oracle)",
             "the hand-written IEEE-754 decoder is correct (self-tested at start-up against std round/floor/as casts)",
